@@ -777,7 +777,7 @@ func checkC01LazyInvariance(w *World, r *Report, id string) {
 // delimiter and the recording of the parameter, every path establishes idx > 0 or idx < 0 (the idx == 0 case leaves the
 // walk). Shared with C09 (host labels).
 func checkNoEmptyCapture(w *World, r *Report, id string) {
-	ru := r.Rule(id, "no empty capture: in both matchers, every path from the search of the next delimiter (strings.IndexByte) to the advance of the cursor over a {param} goes through idx > 0 or idx < 0; an empty segment or host label (idx == 0) abandons the branch", 2)
+	ru := r.Rule(id, "no empty capture, no capture across a delimiter: in both matchers, every path from the search of the next delimiter (strings.IndexByte) to the advance of the cursor over a {param} goes through idx > 0 or idx < 0; an empty segment or host label (idx == 0) abandons the branch; the search is the only definition of idx that reaches those tests", 2)
 	for _, spec := range []struct{ fn, delim string }{{"lookupByPath", "slashDelim"}, {"lookupByDomain", "dotDelim"}} {
 		af := w.astFuncOf(modulePath, spec.fn)
 		found := 0
@@ -850,6 +850,94 @@ func checkNoEmptyCapture(w *World, r *Report, id string) {
 				}
 				dfs(b, false, map[*cfg.Block]bool{})
 				ru.Check("delimiter search in "+spec.fn, w.Pos(as.Pos()), "idx == 0 never reaches the capture", bad == "", orDefault(bad, "every capturing path has idx > 0 or idx < 0"))
+				// a {param} ends at the next delimiter: wherever the result of this search is tested (idx > 0 / idx < 0 / ...), the
+				// search is the only definition of idx that reaches the test — a constant or another value would let the capture
+				// run across a segment or label boundary
+				isSearch := func(n ast.Node) bool {
+					a2, ok := n.(*ast.AssignStmt)
+					if !ok || len(a2.Rhs) != 1 || len(a2.Lhs) != 1 || exprStr(a2.Lhs[0]) != idxVar {
+						return false
+					}
+					c2, ok := a2.Rhs[0].(*ast.CallExpr)
+					return ok && exprStr(c2.Fun) == "strings.IndexByte" && len(c2.Args) == 2 && exprStr(c2.Args[1]) == spec.delim && exprStr(c2.Args[0]) == exprStr(call.Args[0])
+				}
+				assignsIdx := func(n ast.Node) bool {
+					switch t := n.(type) {
+					case *ast.AssignStmt:
+						for _, l := range t.Lhs {
+							if exprStr(l) == idxVar {
+								return true
+							}
+						}
+					case *ast.IncDecStmt:
+						return exprStr(t.X) == idxVar
+					}
+					return false
+				}
+				// test blocks: reachable from b without another assignment of idx, ending in a condition on idx
+				var tests []*cfg.Block
+				{
+					seen := map[*cfg.Block]bool{}
+					var fw func(x *cfg.Block, from int)
+					fw = func(x *cfg.Block, from int) {
+						for _, n2 := range x.Nodes[from:] {
+							if assignsIdx(n2) {
+								return
+							}
+						}
+						if c := af.condOf(x); c != nil {
+							mentions := false
+							ast.Inspect(c, func(m ast.Node) bool {
+								if id, ok := m.(*ast.Ident); ok && id.Name == idxVar {
+									mentions = true
+								}
+								return true
+							})
+							if mentions {
+								tests = append(tests, x)
+							}
+						}
+						for _, sc := range x.Succs {
+							if sc.Live && !seen[sc] {
+								seen[sc] = true
+								fw(sc, 0)
+							}
+						}
+					}
+					start := 0
+					for i, n2 := range b.Nodes {
+						if n2 == nd {
+							start = i + 1
+						}
+					}
+					fw(b, start)
+				}
+				other := ""
+				for _, tb := range tests {
+					seen := map[*cfg.Block]bool{}
+					var bw func(x *cfg.Block)
+					bw = func(x *cfg.Block) {
+						if seen[x] || other != "" {
+							return
+						}
+						seen[x] = true
+						for i := len(x.Nodes) - 1; i >= 0; i-- {
+							if assignsIdx(x.Nodes[i]) {
+								if !isSearch(x.Nodes[i]) {
+									other = fmt.Sprintf("%s assigned at %s also reaches the test at %s", idxVar, w.Pos(x.Nodes[i].Pos()), w.Pos(af.condOf(tb).Pos()))
+								}
+								return
+							}
+						}
+						for _, pr := range af.pred[x] {
+							if pr.Live {
+								bw(pr)
+							}
+						}
+					}
+					bw(tb)
+				}
+				ru.Check("capture ends at the next delimiter in "+spec.fn, w.Pos(as.Pos()), "the delimiter search is the only definition of "+idxVar+" reaching the tests that size the capture", other == "" && len(tests) > 0, orDefault(other, fmt.Sprintf("%d test block(s), all reached by the search only", len(tests))))
 			}
 		}
 		if found == 0 {
